@@ -124,6 +124,10 @@ def prepare():
         ('bigaddi', set_additive_error_model(mB), 5, False),
         ('fitted', set_initial_estimates(mA, {'POP_VC': 1.2}), 0, True),
         ('bigfit', set_initial_estimates(mB, {'POP_VC': 1.3}), 3, True),
+        # twins: the same content under another name and description (same key); the
+        # dummy results are seeded by the name, so 'fitted2' carries other results than 'fitted'
+        ('base2', mA, 4, False),
+        ('fitted2', set_initial_estimates(mA, {'POP_VC': 1.2}), 1, True),
     ]
     for idx, (name, model, d, with_res) in enumerate(variants):
         model = model.replace(name=name, description=DESCRIPTIONS[d])
@@ -131,8 +135,8 @@ def prepare():
         me = ModelEntry.create(model, modelfit_results=res)
         key = str(ModelHash(model))
         POOL.append({'idx': idx, 'name': name, 'model': model, 'me': me, 'key': key,
-                     'desc': DESCRIPTIONS[d], 'has_results': with_res,
-                     'dataset': 'A' if idx in (0, 1, 2, 3, 6) else 'B'})
+                     'desc': DESCRIPTIONS[d], 'has_results': with_res, 'results_json': None,
+                     'dataset': 'A' if idx in (0, 1, 2, 3, 6, 8, 9) else 'B'})
     # install the parse memo (a pure function of the bytes the parser reads)
     import pharmpy.workflows.contexts.baseclass as ctxbase
     ctxbase.datetime = _DatetimeProxy
@@ -150,11 +154,13 @@ def prepare():
         g['model'] = me.model
         g['hash'] = str(ModelHash(me.model))
         if e['has_results']:
-            g['results_json'] = me.modelfit_results.to_json()
+            e['results_json'] = me.modelfit_results.to_json()
     shutil.rmtree(gdir, ignore_errors=True)
     _MEMO.clear()
-    keys = [e['key'] for e in POOL]
-    assert len(set(keys)) == len(keys), 'pool entries must have distinct content'
+    keys = [e['key'] for e in POOL[:8]]
+    assert len(set(keys)) == len(keys), 'the first eight pool entries must have distinct content'
+    assert POOL[8]['key'] == POOL[0]['key'] and POOL[9]['key'] == POOL[6]['key'], 'twins share their key'
+    assert POOL[9]['results_json'] != POOL[6]['results_json'], 'twins carry different results'
 
 
 class SimClock:
@@ -298,6 +304,9 @@ def gen_workload(tape):
     same = [e['idx'] for e in POOL if e['dataset'] == POOL[first]['dataset'] and e['idx'] != first]
     other = [e['idx'] for e in POOL if e['idx'] != first]
     nmod = 1 + tape.draw(3, 'nmodels')
+    twins = [e['idx'] for e in POOL if e['key'] == POOL[first]['key'] and e['idx'] != first]
+    if twins and nmod > 1 and tape.draw(2, 'pool.twin'):
+        chosen.append(twins[0])
     while len(chosen) < nmod:
         src = same if (tape.draw(3, 'pool.share') != 0 and same) else other
         src = [x for x in src if x not in chosen]
@@ -352,6 +361,7 @@ class Ref:
         self.log_times = []         # (invoke seq, return seq) per acked message (in-situ mode)
         self.db_only = set()        # keys stored through the database only
         self.files = {}             # key -> set of ('metadata'|'localfile') acknowledged
+        self.res_writes = {}        # key -> [(results json, invoke seq, return seq)] acknowledged
         self.annot_writes = {}      # name -> [(text, invoke seq, return seq)] acknowledged writes
         self.clock = 0
 
@@ -365,6 +375,7 @@ class Ref:
         r.db_only = set(self.db_only)
         r.annot_writes = {k: list(v) for k, v in self.annot_writes.items()}
         r.files = {k: set(v) for k, v in self.files.items()}
+        r.res_writes = {k: list(v) for k, v in self.res_writes.items()}
         r.clock = self.clock
         return r
 
@@ -376,6 +387,20 @@ class Ref:
         self.clock = max(self.clock, times[1])
         self.annot_writes.setdefault(name, []).append((text, times[0], times[1]))
         self.annot[name] = text
+
+    def note_results(self, key, js, times):
+        if times is None:
+            times = (self.clock + 1, self.clock + 1)
+        self.clock = max(self.clock, times[1])
+        self.res_writes.setdefault(key, []).append((js, times[0], times[1]))
+
+    def results_candidates(self, key):
+        """Acceptable results of a committed key: the latest acknowledged results (any
+        maximal one under concurrency); None (no results) if none was ever stored."""
+        ws = self.res_writes.get(key, [])
+        if not ws:
+            return {None}
+        return {t for (t, i, r) in ws if not any(r < i2 for (_t2, i2, _r2) in ws)}
 
     def annotation_candidates(self, name):
         """Linearizable outcomes: the text of any acknowledged write that is not definitely
@@ -407,6 +432,8 @@ def apply_ack(ref, op):
         name = store_name(op)
         st = ref.keys_acked.setdefault(e['key'], {'results': False})
         st['results'] = st['results'] or e['has_results']
+        if e['has_results']:
+            ref.note_results(e['key'], e['results_json'], op.get('_times'))
         # first binding of a name wins (store_key does nothing if the name exists)
         if name not in ref.names:
             ref.names[name] = e['key']
@@ -479,8 +506,9 @@ class Verdicts:
             self.violations.append({'signature': sig, 'detail': detail})
 
 
-def content_problem(me, key, expect_results, maybe_results):
-    """None if the retrieved entry is the golden content of `key`."""
+def content_problem(me, key, acceptable):
+    """None if the retrieved entry is the golden content of `key` with results from the set
+    `acceptable` (results JSON strings; None = no results)."""
     g = GOLD[key]
     if me is None or me.model is None:
         return 'no model returned'
@@ -490,17 +518,28 @@ def content_problem(me, key, expect_results, maybe_results):
     if h != g['hash']:
         return f'content hash {h} differs from the golden retrieve {g["hash"]} (dataset/model dict)'
     res = me.modelfit_results
-    if expect_results:
-        if res is None:
+    if res is None:
+        if None not in acceptable:
             return 'acknowledged results are missing'
-        if res.to_json() != g.get('results_json'):
-            return 'results differ from what was stored'
-    elif res is not None:
-        if not maybe_results:
+        return None
+    js = res.to_json()
+    if js not in acceptable:
+        if acceptable == {None}:
             return 'results returned although none were stored'
-        if res.to_json() != g.get('results_json'):
-            return 'partial results returned'
+        if js in [e['results_json'] for e in POOL if e['key'] == key and e['results_json']]:
+            return 'results of another (earlier) store of this key are returned'
+        return 'results differ from what was stored (partial or altered)'
     return None
+
+
+def acceptable_results(ref, infl, key, acked):
+    acc = set(infl.result_jsons.get(key, set()))
+    if acked:
+        acc |= ref.results_candidates(key)
+    elif not acc:
+        acc = {None}
+    # never committed + interrupted store carrying results: visible means complete (no None)
+    return acc
 
 
 class Infl:
@@ -511,7 +550,7 @@ class Infl:
     def __init__(self, ops):
         self.ops = [o for o in (ops or []) if o is not None]
         self.keys = {}             # key -> kind of the interrupted transaction
-        self.result_keys = set()
+        self.result_jsons = {}      # key -> set of results JSON of interrupted stores
         self.annot_alts = {}       # name -> set of texts
         self.logs = []             # (sev, path, msg)
         self.datasets = set()
@@ -530,7 +569,7 @@ class Infl:
                 self.datasets.add(e['dataset'])
                 if k in ('store', 'store_input', 'store_final'):
                     if e['has_results']:
-                        self.result_keys.add(e['key'])
+                        self.result_jsons.setdefault(e['key'], set()).add(e['results_json'])
                     nm = store_name(o)
                     self.annot_alts.setdefault(nm, set()).add(e['desc'])
                     self.names[nm] = e['key']
@@ -569,12 +608,7 @@ def check_state(root, ref, inflight, V, where, wl_models, do_progress=True):
         e = POOL[idx]
         key = e['key']
         acked = key in ref.keys_acked
-        exp_res = acked and ref.keys_acked[key]['results']
-        maybe_res = exp_res or key in infl.result_keys
-        if not acked and key in infl.result_keys:
-            # never committed before: if the interrupted store is visible at all it must be
-            # visible completely, results included
-            exp_res = True
+        acc = acceptable_results(ref, infl, key, acked)
         try:
             me = db.retrieve_model_entry(ModelHash(key))
         except Exception as ex:
@@ -589,7 +623,7 @@ def check_state(root, ref, inflight, V, where, wl_models, do_progress=True):
             else:
                 V.count('r1.invisible')
             continue
-        prob = content_problem(me, key, exp_res, maybe_res)
+        prob = content_problem(me, key, acc)
         if prob is not None:
             V.viol('partial-or-wrong-entry-visible' if not acked else 'committed-entry-corrupted',
                    f'{where}: retrieve of {e["name"]} ({key[:8]}) succeeded but {prob}')
@@ -647,8 +681,7 @@ def check_state(root, ref, inflight, V, where, wl_models, do_progress=True):
                 V.viol(f'committed-unretrievable/{type(ex).__name__}',
                        f'{where}: committed name {name!r} raises {ex!r}')
             continue
-        exp_res = ref.keys_acked[key]['results']
-        prob = content_problem(me, key, exp_res, exp_res or key in infl.result_keys)
+        prob = content_problem(me, key, acceptable_results(ref, infl, key, True))
         if prob is None and me.model.name != plain:
             prob = f'name is {me.model.name!r}'
         want = ref.annot.get(name)
@@ -694,7 +727,14 @@ def check_state(root, ref, inflight, V, where, wl_models, do_progress=True):
             V.viol('partial-or-wrong-entry-visible',
                    f'{where}: name {name!r} that nobody stored resolves to {key}')
             continue
-        prob = content_problem(me, key, False, True)
+        prob = content_problem(me, key, acceptable_results(ref, infl, key, key in ref.keys_acked) |
+                               ({None} if key in ref.keys_acked else set()))
+        if prob is None and me.model.name != plain:
+            prob = f'name is {me.model.name!r}'
+        ok_desc = infl.annot_alts.get(name, set()) | ref.annotation_candidates(name)
+        if prob is None and me.model.description not in ok_desc:
+            prob = (f'description is {me.model.description!r}, the interrupted store carried '
+                    f'{sorted(ok_desc)}')
         if prob is not None:
             V.viol('partial-or-wrong-entry-visible',
                    f'{where}: unacknowledged name {name!r} is retrievable but {prob}')
@@ -745,7 +785,7 @@ def check_state(root, ref, inflight, V, where, wl_models, do_progress=True):
             apply_ack(ref2, op)
             try:
                 me = ctx.retrieve_model_entry(e['name'])
-                prob = content_problem(me, e['key'], ref2.keys_acked[e['key']]['results'], True)
+                prob = content_problem(me, e['key'], acceptable_results(ref2, infl, e['key'], True))
             except Exception as ex:
                 prob = f'raises {ex!r}'
             if prob is not None:
@@ -1026,7 +1066,7 @@ def run_journal(cfg, tape, want_trace=False):
                             me = quiet(ctx.get_subcontext(SUB)).retrieve_model_entry(nm[len(SUB) + 1:])
                         else:
                             me = ctx.retrieve_model_entry(nm)
-                        prob = content_problem(me, ky, ref.keys_acked[ky]['results'], False)
+                        prob = content_problem(me, ky, ref.results_candidates(ky))
                     except Exception as ex:
                         prob = f'raises {ex!r}'
                     if prob:
